@@ -130,6 +130,18 @@ def pcr_cases(thorough, seed):
                                "form": "pcr.%s.k%d" % ("fwd" if fwd else "bwd", min(k, 1)),
                                "traits": {"ind": ind, "zone": zone(gap if fwd else -gap, (127, -128, 32767, -32768) if gap > 1000 else (124, -126))},
                                "src": [("S", "T", 0)] + extra_src, "valid": True if gap < 32000 else None, "mn": mn}
+    # crossing / nested pairs of unsized PCR statements whose decisions depend on each other
+    for n in (range(100, 141) if not thorough else range(90, 160)):
+        for m1, m2 in (("LEAX", "LEAY"), ("LDY", "LDA"), ("LDA", "STS")):
+            for ind1, ind2 in ((False, False), (True, False), (False, True)):
+                o1 = "[T2,PCR]" if ind1 else "T2,PCR"
+                o2 = "[T1,PCR]" if ind2 else "T1,PCR"
+                lines = [" ORG $2000\n", "T1 NOP\n", "P1 %s %s\n" % (m1, o1)] + filler(n, "rmb") + ["P2 %s %s\n" % (m2, o2), "T2 NOP\n", " RTS\n"]
+                yield {"id": "pcrcross/%s/%s/%d/%d%d" % (m1, m2, n, ind1, ind2), "lines": lines, "form": "pcr.crossing", "traits": {"ind": ind1 or ind2, "zone": "n/a"},
+                       "src": [("P1", "T2", 0), ("P2", "T1", 0)], "valid": True, "mn": m1}
+                lines = [" ORG $2000\n", "P1 %s %s\n" % (m1, o1), "P2 %s %s\n" % (m2, o2.replace("T1", "T3"))] + filler(n, "rmb") + ["T3 NOP\n", "T2 NOP\n", " RTS\n"]
+                yield {"id": "pcrnest/%s/%s/%d/%d%d" % (m1, m2, n, ind1, ind2), "lines": lines, "form": "pcr.nested", "traits": {"ind": ind1 or ind2, "zone": "n/a"},
+                       "src": [("P1", "T2", 0), ("P2", "T3", 0)], "valid": True, "mn": m1}
     # label +- n
     for mn in ("LDA", "LEAX"):
         for n in (1, 2, 5, -1, -3):
